@@ -1161,9 +1161,12 @@ Definition word_of_file (root p : fspath) : word :=
                          raised before anything is touched
      examine_t tfix      examine as written, with the marker check of a torn directory raising (tfix = false: the script today) or
                          answering None like a missing marker (tfix = true: the repair `except ValueError: return None` around json.load)
-     tentry              a crash-schedule entry + te_torn: the interruption inside the pipeline run comes WHILE the last of the
-                         k - 4 files is being published instead of after it; if that file is the marker it is left torn (any
-                         other file: whole, see above), and the pipeline run has not succeeded
+     tentry              a crash-schedule entry + te_torn: the interruption inside the pipeline run comes WHILE event k - 4 of
+                         the run is under way instead of after it.  Events 1 .. m are the publications of its m files: if the
+                         file being published is the marker it is left torn (any other file: whole, see above), and the
+                         pipeline run has not succeeded.  Event m + 1 is the run's own wrap-up after its last publication
+                         (nextflow's report, trace, clean-up): interrupted there, every file is whole and the step counts as
+                         complete, but the exit status is not 0 and the call of run_next_* does not return
      attempt_t           one call of run_next_* on a tree with torn markers: raises (tree untouched, nothing named), or names a
                          directory (the operator removes it, torn or not), or is the model's attempt on the tree component
      op_screen_t         the operator counts directories HOLDING a marker file (he does not parse it)
@@ -1234,6 +1237,9 @@ Definition attempt_t (tfix : bool) (md : mode) (fixed : bool) (bs : Z) (n : nat)
           (* the interruption comes WHILE the (k-4)-th file is being published: it exists, torn; only a torn marker matters *)
           if te_torn te && last_is_meta ps && Nat.eqb (length ps) (e_k (te_e te) - 4)
           then ((upd_plate s clear_meta f1, s :: torn1), GLaunch s l ps false)
+          (* the interruption comes in the run's own wrap-up AFTER its last publication: every file is whole, the exit status is not 0 *)
+          else if te_torn te && ok && Nat.eqb (S (length ps)) (e_k (te_e te) - 4)
+          then ((f1, torn1), GLaunch s l ps false)
           else ((f1, torn1), g)
       | _ => ((f1, torn1), g)
       end
